@@ -7,108 +7,122 @@ open Httpcore Httpcore.H2
 
 /-! ## the stream-slot semaphore -/
 
-/-- the accounting invariant of `_max_streams_semaphore` / `_max_streams` -/
+/-- the accounting invariant of `_max_streams_semaphore` / `_max_streams` / `_max_streams_debt` -/
 structure SlotInv (s : Slots) : Prop where
-  account : s.sem + s.held = s.maxS
-  want_le : s.want ≤ s.maxS
-  want_pos : 1 ≤ s.want
+  account : s.sem + s.held = s.maxS + s.debt
+  pos : 1 ≤ s.maxS
   cap : s.maxS ≤ localCap
 
 theorem init_inv : SlotInv Slots.init := by
   constructor <;> simp [Slots.init, localCap, Gen.h2InitialMaxStreams, Gen.h2LocalMaxStreams]
 
 theorem settings_inv (s : Slots) (n : Nat) (h : SlotInv s) : SlotInv (s.settings n) := by
-  obtain ⟨h1, h2, h3, h4⟩ := h
+  obtain ⟨h1, h2, h3⟩ := h
   unfold Slots.settings
   simp only []
   split
-  · exact ⟨h1, h2, h3, h4⟩
+  · exact ⟨h1, h2, h3⟩
   · rename_i hc
-    have hw : s.want = s.maxS := Decidable.not_not.mp (not_or.mp hc).2
     have hn0 : min n localCap ≠ 0 := (not_or.mp hc).1
     have hcap : min n localCap ≤ localCap := Nat.min_le_right _ _
     split
     · constructor <;> simp only [] <;> omega
     · constructor <;> simp only [] <;> omega
 
-theorem open_inv (s s' : Slots) (h : SlotInv s) (ho : s.openStream = some s') : SlotInv s' := by
-  obtain ⟨h1, h2, h3, h4⟩ := h
-  unfold Slots.openStream at ho
-  split at ho
-  · cases ho; constructor <;> simp <;> omega
-  · cases ho
+theorem open_inv (s : Slots) (h : SlotInv s) : SlotInv s.openStream.1 := by
+  obtain ⟨h1, h2, h3⟩ := h
+  unfold Slots.openStream
+  simp only []
+  split
+  · constructor <;> simp only [] <;> omega
+  · constructor <;> simp only [] <;> omega
 
 theorem close_inv (s : Slots) (h : SlotInv s) : SlotInv s.closeStream := by
-  obtain ⟨h1, h2, h3, h4⟩ := h
+  obtain ⟨h1, h2, h3⟩ := h
   unfold Slots.closeStream
   split
-  · exact ⟨h1, h2, h3, h4⟩
+  · exact ⟨h1, h2, h3⟩
   · split
-    · constructor <;> simp <;> omega
-    · constructor <;> simp <;> omega
+    · constructor <;> simp only [] <;> omega
+    · constructor <;> simp only [] <;> omega
 
 theorem step_inv (s : Slots) (op : SlotOp) (h : SlotInv s) : SlotInv (s.step op) := by
   cases op with
   | settings n => exact settings_inv s n h
-  | open_ =>
-    simp only [Slots.step]
-    cases ho : s.openStream with
-    | none => simpa using h
-    | some s' => simpa using open_inv s s' h ho
+  | open_ => exact open_inv s h
   | close => exact close_inv s h
 
-/-- **C12.slot_accounting** — for every sequence of SETTINGS changes, stream openings and stream ends:
-free permits + open streams = the current limit, which is at most the local cap (100). -/
+/-- **C12.slot_accounting** — for every sequence of SETTINGS changes (up and down, also below the number of streams in
+flight), stream openings and stream ends: free permits + open streams = the limit in force + the permits still to be
+withheld, and the limit in force is between 1 and the local cap (100). -/
 theorem slot_accounting (ops : List SlotOp) : SlotInv (ops.foldl Slots.step Slots.init) := by
   suffices h : ∀ s, SlotInv s → SlotInv (ops.foldl Slots.step s) from h _ init_inv
   induction ops with
   | nil => intro s h; simpa using h
   | cons op ops ih => intro s h; simpa using ih _ (step_inv s op h)
 
-/-- **C12.open_within_limit** — a stream is opened only while fewer streams are open than the limit the
-server advertised last (`want`, capped at 100; 1 until the first SETTINGS), and never while the limit is being lowered. -/
-theorem open_within_limit (ops : List SlotOp) (s' : Slots)
-    (ho : (ops.foldl Slots.step Slots.init).openStream = some s') :
-    s'.held ≤ (ops.foldl Slots.step Slots.init).want ∧ s'.held ≤ localCap ∧
-    (ops.foldl Slots.step Slots.init).readerBlocked = false := by
-  have h := slot_accounting ops
-  obtain ⟨h1, h2, h3, h4⟩ := h
-  unfold Slots.openStream at ho
-  split at ho
-  · rename_i hc
-    cases ho
-    simp [Slots.readerBlocked]
+/-- **C12.open_within_limit** — a stream is opened only while, counting it, no more streams are open than the limit the
+server advertised last (capped at 100; 1 until the first SETTINGS): after a lowered limit no new stream opens until enough
+of the old ones have ended. -/
+theorem open_success (s : Slots) (h : SlotInv s) (ho : s.openStream.2 = true) :
+    s.openStream.1.held ≤ s.maxS ∧ s.openStream.1.debt = 0 := by
+  obtain ⟨h1, h2, h3⟩ := h
+  by_cases hc : s.sem - min s.sem s.debt > 0
+  · simp only [Slots.openStream, hc, if_true]
     omega
-  · cases ho
+  · simp [Slots.openStream, hc] at ho
 
-/-- the limit applied after a SETTINGS frame is `min(server value, 100)`; a value of 0 is ignored -/
-theorem settings_limit (s : Slots) (n : Nat) (hidle : s.want = s.maxS) (hn : min n localCap ≠ 0) :
-    (s.settings n).want = min n localCap := by
+theorem open_within_limit (ops : List SlotOp) (ho : (ops.foldl Slots.step Slots.init).openStream.2 = true) :
+    (ops.foldl Slots.step Slots.init).openStream.1.held ≤ (ops.foldl Slots.step Slots.init).maxS ∧
+    (ops.foldl Slots.step Slots.init).openStream.1.held ≤ localCap := by
+  have h := slot_accounting ops
+  have := open_success _ h ho
+  have := h.cap
+  omega
+
+/-- the limit in force after a SETTINGS frame is `min(server value, 100)`, at once - also when it is lowered; 0 is ignored -/
+theorem settings_limit (s : Slots) (n : Nat) (hn : min n localCap ≠ 0) : (s.settings n).maxS = min n localCap := by
   unfold Slots.settings
   simp only []
   split
-  · rename_i hc; rcases hc with h0 | hne
+  · rename_i hc; rcases hc with h0 | he
     · exact absurd h0 hn
-    · exact absurd hidle hne
+    · exact he.symm
   · split <;> rfl
 
 /-- "one until its SETTINGS arrive" -/
 theorem one_before_settings (k : Nat) :
     ((List.replicate k SlotOp.open_).foldl Slots.step Slots.init).held ≤ 1 := by
   have h := slot_accounting (List.replicate k SlotOp.open_)
-  have hm : ∀ (k : Nat) (s : Slots), s.maxS = 1 → ((List.replicate k SlotOp.open_).foldl Slots.step s).maxS = 1 := by
+  have hm : ∀ (k : Nat) (s : Slots), s.maxS = 1 → s.debt = 0 →
+      ((List.replicate k SlotOp.open_).foldl Slots.step s).maxS = 1 ∧ ((List.replicate k SlotOp.open_).foldl Slots.step s).debt = 0 := by
     intro k
     induction k with
-    | zero => intro s hs; simpa using hs
+    | zero => intro s hs hd; exact ⟨by simpa using hs, by simpa using hd⟩
     | succ k ih =>
-      intro s hs
+      intro s hs hd
       simp only [List.replicate_succ, List.foldl_cons]
       apply ih
-      simp only [Slots.step, Slots.openStream]
-      split <;> simpa using hs
-  have := hm k Slots.init (by simp [Slots.init, Gen.h2InitialMaxStreams])
+      · simp only [Slots.step, Slots.openStream]; split <;> simpa using hs
+      · simp only [Slots.step, Slots.openStream]; split <;> simp [hd]
+  have := hm k Slots.init (by simp [Slots.init, Gen.h2InitialMaxStreams]) (by simp [Slots.init])
   have := h.account
   omega
+
+/-- the debt is paid off by exactly as many stream ends / withheld permits: it never grows except by a lowered limit -/
+theorem debt_only_from_lowering (s : Slots) (op : SlotOp) (h : (s.step op).debt > s.debt) :
+    ∃ n, op = .settings n ∧ min n localCap < s.maxS := by
+  cases op with
+  | settings n =>
+    refine ⟨n, rfl, ?_⟩
+    simp only [Slots.step, Slots.settings] at h
+    split at h
+    · omega
+    · split at h
+      · simp only [] at h; omega
+      · omega
+  | open_ => simp only [Slots.step, Slots.openStream] at h; split at h <;> dsimp only at h <;> omega
+  | close => simp only [Slots.step, Slots.closeStream] at h; split at h <;> (try split at h) <;> (try dsimp only at h) <;> omega
 
 /-! ## progress: the reader, its lock and the semaphore -/
 
@@ -121,59 +135,77 @@ structure PState where
   deriving DecidableEq, Repr
 
 inductive PAct
-  | settings (n : Nat)     -- the reader (holding the read lock) processes a SETTINGS frame
-  | open_                  -- a request takes a slot
+  | settings (n : Nat)     -- the reader processes a SETTINGS frame (it never waits for the semaphore)
+  | open_                  -- a request runs its acquire loop
   | deliver                -- the reader queues the rest of one stream's events
-  | finish                 -- a stream with queued events ends and releases its slot
+  | finish                 -- a stream with queued events ends and releases / withholds its slot
   deriving Repr
 
-/-- what can happen: anything that needs the reader is impossible while the reader is blocked inside the
-semaphore (it holds the read lock: `_receive_events` → `_receive_remote_settings_change` → `acquire`) -/
 def pstep (p : PState) : PAct → Option PState
+  | .settings n => some { p with slots := p.slots.settings n }
+  | .open_ => let r := p.slots.openStream
+              some { p with slots := r.1, waiting := if r.2 then p.waiting + 1 else p.waiting }
+  | .deliver => if p.waiting = 0 then none else some { p with waiting := p.waiting - 1, ready := p.ready + 1 }
+  | .finish => if p.ready = 0 then none else some { p with ready := p.ready - 1, slots := p.slots.closeStream }
+
+def PState.init : PState := { slots := Slots.init, waiting := 0, ready := 0 }
+
+/-- **C12.no_wedge** — whatever SETTINGS the server has sent, as long as some stream is open one of them can make progress:
+the reader is never parked inside the semaphore, so it can always deliver to a waiting stream, and a stream whose events
+are queued can always finish. -/
+theorem no_wedge (p : PState) (hopen : 0 < p.waiting + p.ready) :
+    (pstep p .deliver).isSome ∨ (pstep p .finish).isSome := by
+  by_cases hr : p.ready = 0
+  · left
+    have : p.waiting ≠ 0 := by omega
+    simp [pstep, this]
+  · right; simp [pstep, hr]
+
+/-- a SETTINGS frame is always processed: nothing about the slots can hold the reader up -/
+theorem settings_never_blocks (p : PState) (n : Nat) : (pstep p (.settings n)).isSome := by simp [pstep]
+
+/-- once the open streams have ended, a waiting request gets its slot: no permit is lost to the debt -/
+theorem slot_available_when_idle (s : Slots) (h : SlotInv s) (hidle : s.held = 0) : s.openStream.2 = true := by
+  obtain ⟨h1, h2, h3⟩ := h
+  unfold Slots.openStream
+  simp only []
+  split
+  · rfl
+  · rename_i hc; omega
+
+/-! #### the 1.0.7 behaviour -/
+
+structure PState107 where
+  slots : Slots107
+  waiting : Nat
+  ready : Nat
+  deriving DecidableEq, Repr
+
+def pstep107 (p : PState107) : PAct → Option PState107
   | .settings n => if p.slots.readerBlocked then none else some { p with slots := p.slots.settings n }
   | .open_ => (p.slots.openStream).map fun s => { p with slots := s, waiting := p.waiting + 1 }
   | .deliver => if p.slots.readerBlocked ∨ p.waiting = 0 then none
                 else some { p with waiting := p.waiting - 1, ready := p.ready + 1 }
   | .finish => if p.ready = 0 then none else some { p with ready := p.ready - 1, slots := p.slots.closeStream }
 
-def prun (p : PState) : List PAct → Option PState
+def prun107 (p : PState107) : List PAct → Option PState107
   | [] => some p
-  | a :: rest => (pstep p a).bind fun p' => prun p' rest
+  | a :: rest => (pstep107 p a).bind fun p' => prun107 p' rest
 
-def PState.init : PState := { slots := Slots.init, waiting := 0, ready := 0 }
-
-/-- **C12.no_wedge_partial** — as long as the reader is not blocked in the semaphore, some stream can always make
-progress. (The full statement - for every timing of SETTINGS changes - is false, see `wedge_reachable`.) -/
-theorem no_wedge_partial (p : PState) (hb : p.slots.readerBlocked = false) (hopen : 0 < p.waiting + p.ready) :
-    (pstep p .deliver).isSome ∨ (pstep p .finish).isSome := by
-  by_cases hr : p.ready = 0
-  · left
-    have : p.waiting ≠ 0 := by omega
-    simp [pstep, hb, this]
-  · right; simp [pstep, hr]
-
-/-- a SETTINGS frame that does not lower the limit below the number of streams in flight never blocks the reader -/
-theorem settings_not_below_inflight (s : Slots) (n : Nat) (h : SlotInv s) (hidle : s.readerBlocked = false)
-    (hge : s.held ≤ min n localCap) : (s.settings n).readerBlocked = false := by
-  obtain ⟨h1, h2, h3, h4⟩ := h
-  simp only [Slots.readerBlocked, decide_eq_false_iff_not, Nat.not_lt] at hidle ⊢
-  unfold Slots.settings
-  simp only []
-  split
-  · exact hidle
-  · split
-    · simp
-    · simp; omega
-
-/-- **finding F-C12-a (proved of the model, replayed on the implementation)** — the server raises the limit to 3,
-three requests are in flight waiting for their responses, the server lowers the limit to 1: the reader blocks in
-the semaphore holding the read lock, and no action is possible any more. -/
-theorem wedge_reachable :
-    ∃ p, prun PState.init [.settings 3, .open_, .open_, .open_, .settings 1] = some p ∧
-      p.waiting = 3 ∧ ∀ a, pstep p a = none := by
+/-- **finding F-C12-a (1.0.7; repaired)** — the server raises the limit to 3, three requests are in flight waiting for their
+responses, the server lowers the limit to 1: the reader blocks in the semaphore holding the read lock, and no action is
+possible any more. -/
+theorem wedge_reachable_107 :
+    ∃ p, prun107 { slots := { sem := 1, held := 0, maxS := 1, want := 1 }, waiting := 0, ready := 0 }
+        [.settings 3, .open_, .open_, .open_, .settings 1] = some p ∧
+      p.waiting = 3 ∧ ∀ a, pstep107 p a = none := by
   refine ⟨{ slots := { sem := 0, held := 3, maxS := 3, want := 1 }, waiting := 3, ready := 0 }, by decide, rfl, ?_⟩
   intro a
-  cases a <;> simp [pstep, Slots.readerBlocked, Slots.openStream]
+  cases a <;> simp [pstep107, Slots107.readerBlocked, Slots107.openStream]
+
+/-- the same history with the repaired bookkeeping: the limit drops at once, two permits are owed, and the streams go on -/
+example : ([SlotOp.settings 3, .open_, .open_, .open_, .settings 1].foldl Slots.step Slots.init) =
+    { sem := 0, held := 3, maxS := 1, debt := 2 } := by decide
 
 /-! ## demultiplexing -/
 
@@ -227,7 +259,7 @@ theorem settings_change_modelled : Gen.settingsChangeShapeKnown = true := by dec
 
 /-! non-vacuity -/
 example : ([SlotOp.settings 3, .open_, .open_, .close, .settings 200, .open_].foldl Slots.step Slots.init) =
-    { sem := 98, held := 2, maxS := 100, want := 100 } := by decide
+    { sem := 98, held := 2, maxS := 100, debt := 0 } := by decide
 example : routeAll [1, 3] (fun _ => []) [(1, 10), (3, 30), (5, 50), (1, 11)] 1 = [10, 11] := by decide
 
 end Httpcore.C12
